@@ -381,6 +381,8 @@ def common_repr(v):
 
 def main_generic(prop, args, make_units, unit_fn, assumptions, bounds=None, budget=None):
     units = make_units(args.tier, set(args.module) if args.module else None)
+    if args.tier != 'quick':
+        units = common.plan_thorough(units, make_units('quick', set(args.module) if args.module else None))
     units = common.shuffle_units(units)
     rep = common.Report(prop, args.tier)
     rep.assumptions = assumptions
